@@ -121,7 +121,7 @@ func Load(cfg BuildConfig, needSSA bool) (*Program, error) {
 	if !needSSA {
 		return p, nil
 	}
-	prog, _ := ssautil.AllPackages(pkgs, ssa.InstantiateGenerics|ssa.GlobalDebug)
+	prog, _ := ssautil.AllPackages(pkgs, ssa.InstantiateGenerics)
 	prog.Build()
 	p.SSA = prog
 	for _, sp := range prog.AllPackages() {
